@@ -39,7 +39,9 @@ def run(v):
                                 "MC_CmdLine_design.cfg", signature=cmdline_sig.signature, name="C01b")
     cov = merge_cov(cov, bcov, "batteries")
     # spellings at the edges: empty attached values, several short names per item inside bundles, values that are not text
-    ecov = run_cmdline_property(v, D.edge_family(SEED + 10, 18 if q else 54, maxlen=2 if q else 3),
+    # ... and names of one level of which one is the beginning of another
+    px = D.prefix_family(SEED + 11, maxlen=3 if q else 4)
+    ecov = run_cmdline_property(v, D.edge_family(SEED + 10, 18 if q else 54, maxlen=2 if q else 3) + (px[1::3] if q else px),
                                 "MC_CmdLine_design.cfg", signature=cmdline_sig.signature, name="C01e")
     cov = merge_cov(cov, ecov, "edges")
     cov["rule"] = ("every line over each definition's alphabet up to its maxlen, enumerated by TLC; non-trivial = "
